@@ -329,7 +329,7 @@ theorem xstep_inv (s : XSys) (hi : XInv E toc0 pers s) (c : XChoice) : XInv E to
               simp only [Function.comp]
               unfold mark markIf
               rw [Pk_succ E pers k hk, hp']
-              cases hP : Pk E pers k e.ident <;> by_cases h1 : e.ident = E[k] <;> simp [hP, h1]
+              cases Pk E pers k e.ident <;> by_cases h1 : e.ident = E[k] <;> simp [h1]
           unfold XSys.deliver
           rw [hstep, htoc']
           by_cases hlast : s.x.count - 1 = 0
@@ -358,6 +358,7 @@ theorem xrun_inv (s : XSys) (hi : XInv E toc0 pers s) (cs : List XChoice) : XInv
 
 def XSys.remaining (s : XSys) : Nat := 2 * s.x.count.toNat - (if s.x.locked then 1 else 0)
 
+omit hnd in
 theorem xprogress (s : XSys) (hi : XInv E toc0 pers s) (hd : s.x.done = 0) :
     ∃ c, (s.step pers c).remaining < s.remaining := by
   cases hi with
@@ -422,12 +423,12 @@ theorem xcompletes (n : Nat) (s : XSys) (hi : XInv E toc0 pers s) (hn : s.remain
   induction n generalizing s with
   | zero =>
     rcases hdone_cases with h0 | h1
-    · obtain ⟨c, hc⟩ := xprogress E toc0 pers hnd hE hmem s hi h0
+    · obtain ⟨c, hc⟩ := xprogress E toc0 pers hE hmem s hi h0
       omega
     · exact ⟨[], Nat.le_refl _, h1⟩
   | succ n ih =>
     rcases hdone_cases with h0 | h1
-    · obtain ⟨c, hc⟩ := xprogress E toc0 pers hnd hE hmem s hi h0
+    · obtain ⟨c, hc⟩ := xprogress E toc0 pers hE hmem s hi h0
       have hi' := xstep_inv E toc0 pers hnd hE hmem s hi c
       have hd' : (s.step pers c).x.done = 0 ∨ (s.step pers c).x.done = 1 := by
         cases hi' with
